@@ -49,7 +49,11 @@ class C09(Prop):
     }
 
     def extract_tables(self, repo):
-        return S.extract_tables(repo)
+        from harness import pystream
+        out = dict(S.extract_tables(repo))
+        out.update(pystream.generate_convert(repo))      # the skeleton of ExtendedToStreamDecorator._convert, translated from the source
+        out.update(pystream.generate_consumer(repo))     # C09's theorems build on C10's
+        return out
 
     # ----- implementation side
     def details(self, ds):
